@@ -44,7 +44,7 @@ def project_file(options: dict, body: str = "") -> str:
 CAPTURED = {}      # "docs": the ford.output.Documentation instance of the last build (project, pages ...)
 
 
-def build_site(root: Path, project_md: str = "project.md", cli=None, graphs_real=False):
+def build_site(root: Path, project_md: str = "project.md", cli=None, graphs_real=False, cwd=None):
     """Run FORD on root/project_md in this process.  -> (settings, captured output)
     Raises whatever escapes ford.main (SystemExit included).  The Documentation object that
     ford.main builds is kept in CAPTURED["docs"] (observation only)."""
@@ -61,17 +61,22 @@ def build_site(root: Path, project_md: str = "project.md", cli=None, graphs_real
     pfile = root / project_md
     text = pfile.read_text(encoding="utf-8")
     buf = io.StringIO()
-    cwd = os.getcwd()
+    old_cwd = os.getcwd()
     cli = dict(cli or {})
     pdir = pfile.parent          # options are relative to the project file (ford.initialize does the same)
     try:
-        os.chdir(pdir)
+        if cwd is None:
+            os.chdir(pdir)
+        else:
+            # as `ford some/dir/project.md` started from `cwd`: the project directory is a relative path
+            os.chdir(cwd)
+            pdir = Path(os.path.relpath(pdir, cwd))
         with contextlib.redirect_stdout(buf), contextlib.redirect_stderr(buf):
             docs, data = ford.load_settings(text, pdir, pfile.name)
             data, docs = ford.parse_arguments(cli, docs, data, pdir)
             ford.main(data, docs)
     finally:
-        os.chdir(cwd)
+        os.chdir(old_cwd)
         ford.output.Documentation.__init__ = orig_init
     return data, buf.getvalue()
 
